@@ -58,14 +58,13 @@ Proof.
   rewrite <- (app_nil_r (wr (N.to_nat k) (u mod 2 ^ k))).
   eapply encodes_bind.
   { apply encodes_rd. rewrite N2Nat.id. apply N.mod_upper_bound. exact Hp. }
-  apply encodes_val with (x := zigzag_decode u); [|].
-  - subst u. apply zigzag_roundtrip.
-  - rewrite N2Nat.id.
-    assert (E : (u / 2 ^ k * 2 ^ k) mod 2 ^ 32 + u mod 2 ^ k = u).
-    { pose proof (N.div_mod u (2 ^ k) Hp) as D.
-      rewrite N.mod_small; [rewrite (N.mul_comm (u / 2 ^ k)); symmetry; exact D|].
-      apply N.le_lt_trans with u; [|exact Hu]. rewrite (N.mul_comm (u / 2 ^ k)). apply N.mul_div_le. exact Hp. }
-    rewrite E. apply encodes_ret.
+  rewrite N2Nat.id.
+  eapply encodes_bind_nil.
+  { apply encodes_guard. apply N.leb_le. apply N.div_le_mono; [exact Hp|]. change (2 ^ 32) with 4294967296 in *. lia. }
+  apply encodes_val with (x := zigzag_decode u); [subst u; apply zigzag_roundtrip|].
+  assert (E : u / 2 ^ k * 2 ^ k + u mod 2 ^ k = u).
+  { pose proof (N.div_mod u (2 ^ k) Hp) as D. rewrite (N.mul_comm (u / 2 ^ k)). symmetry. exact D. }
+  rewrite E. apply encodes_ret.
 Qed.
 
 (* ---- partitions ---- *)
@@ -150,13 +149,14 @@ Lemma encodes_residual bs order r : wf_residual bs order r = true ->
 Proof.
   unfold wf_residual. intros H.
   apply andb_prop in H. destruct H as [H Hparts]. apply andb_prop in H. destruct H as [H Hlens].
-  apply andb_prop in H. destruct H as [Hm Hpo].
+  apply andb_prop in H. destruct H as [H Hdiv]. apply andb_prop in H. destruct H as [Hm Hpo].
   apply N.ltb_lt in Hm. apply N.ltb_lt in Hpo.
   apply lens_eqb_spec in Hlens. rewrite map_map in Hlens.
   unfold struct_residuals, write_residual.
   eapply encodes_bind. { apply encodes_rd. change (2 ^ N.of_nat 2) with 4. lia. }
   eapply encodes_bind_nil. { apply encodes_guard. apply N.ltb_lt. exact Hm. }
   eapply encodes_bind. { apply encodes_rd. change (2 ^ N.of_nat 4) with 16. exact Hpo. }
+  eapply encodes_bind_nil. { apply encodes_guard. exact Hdiv. }
   rewrite Hlens. rewrite <- (app_nil_r (flat_map _ _)).
   eapply encodes_bind; [apply encodes_partitions; exact Hparts|].
   destruct r; apply encodes_ret.
